@@ -10,6 +10,7 @@ import (
 	"fmt"
 	"sort"
 	"strings"
+	"sync"
 	"testing"
 	"testing/synctest"
 	"time"
@@ -656,6 +657,101 @@ func c06massExpiry(k int) *schedx.Scenario {
 	return sc
 }
 
+// c06expiryBetweenCheckAndWrite: the deadline of a duty passes - and another Store consumes the deadliner's report of it - while a
+// Store for that duty is under way. "Data for expired duties is refused" then means: whatever that Store does, once the deadline
+// has passed, every Store of the duty has returned and one more Store (of anything) has run from start to end, the duty store holds
+// nothing of the duty any more (the report is delivered once; data written after it was consumed would stay for ever). The
+// deadliner runs on a fake clock that a harness thread moves, so that "the deadline passes" is an operation that can be scheduled
+// between any two steps of the other threads (bubble time only moves when nothing is enabled).
+func c06expiryBetweenCheckAndWrite() *schedx.Scenario {
+	sc := &schedx.Scenario{Name: "att-expiry-between-check-and-write", Params: map[string]any{}}
+	type res struct {
+		mu                                               sync.Mutex
+		seq                                              int
+		xStart, xDone, adv, settleStart, settleDone      int
+		xErr, otherErr, settleErr                        error
+		probeDone, probeFound, awaitServed, awaitChecked bool
+		db                                               *MemDB
+	}
+	attD := core.NewAttesterDuty(10)
+	X := c06att("X", core.PubKey("0xaaaa"), 10, 3, 1, 0x11, 1)
+	L := c06att("L", core.PubKey("0xaaaa"), 20, 3, 1, 0x11, 1)
+	L2 := c06att("L2", core.PubKey("0xaaaa"), 30, 3, 1, 0x11, 1)
+	sc.Setup = func(x *schedx.Exec) {
+		fc := clockwork.NewFakeClock()
+		t0 := fc.Now()
+		dl := core.NewDeadlinerForT(x.Ctx, x.TB, func(duty core.Duty) (time.Time, bool) {
+			if duty == attD {
+				return t0.Add(10 * time.Second), true
+			}
+			return t0.Add(1000 * time.Hour), true
+		}, fc)
+		r := &res{db: NewMemDB(dl)}
+		x.Data = r
+		tick := func() int {
+			r.mu.Lock()
+			defer r.mu.Unlock()
+			r.seq++
+			return r.seq
+		}
+		x.Go("store", func(t *schedx.T) {
+			r.xStart = tick()
+			err := r.db.Store(x.Ctx, attD, core.UnsignedDataSet{X.pk: X.data})
+			t.Point("ret")
+			r.xErr, r.xDone = err, tick()
+			x.Obs("store=%v", err != nil)
+		})
+		x.Go("clock", func(t *schedx.T) {
+			fc.Advance(11 * time.Second)
+			t.Point("advanced") // the deadliner's goroutine has handled its timer when the next step starts
+			r.adv = tick()
+			x.Obs("deadline-passed")
+		})
+		x.Go("other", func(t *schedx.T) {
+			err := r.db.Store(x.Ctx, core.NewAttesterDuty(20), core.UnsignedDataSet{L.pk: L.data})
+			t.Point("ret")
+			r.otherErr = err
+			x.Obs("other=%v", err != nil)
+		})
+		x.Go("settle", func(t *schedx.T) {
+			r.settleStart = tick()
+			err := r.db.Store(x.Ctx, core.NewAttesterDuty(30), core.UnsignedDataSet{L2.pk: L2.data})
+			t.Point("ret")
+			r.settleErr, r.settleDone = err, tick()
+			t.Point("probe")
+			_, perr := r.db.PubKeyByAttestation(x.Ctx, 10, 3, 1)
+			r.probeFound, r.probeDone = perr == nil, true
+			x.Obs("settle=%v probe=%v", err != nil, r.probeFound)
+		})
+	}
+	sc.StateKey = func(x *schedx.Exec) string { return c06dump(x.Data.(*res).db) }
+	sc.Outcome = func(x *schedx.Exec) string {
+		r := x.Data.(*res)
+		return fmt.Sprintf("store=%v probe=%v order=%v", r.xErr != nil, r.probeFound, r.settleStart > r.adv && r.settleStart > r.xDone)
+	}
+	sc.Check = func(x *schedx.Exec) []schedx.Violation {
+		r := x.Data.(*res)
+		var out []schedx.Violation
+		if r.adv == 0 || r.xDone == 0 || !r.probeDone {
+			return out // an operation did not finish: judged by the other scenarios
+		}
+		if r.otherErr != nil || r.settleErr != nil {
+			out = append(out, schedx.Violation{Signature: "kind=store-failed-without-conflict where=expiry-between-check-and-write",
+				Description: fmt.Sprintf("a Store of an unexpired duty failed: %v %v", r.otherErr, r.settleErr)})
+		}
+		if r.xStart > r.adv && r.xErr == nil {
+			out = append(out, schedx.Violation{Signature: "kind=expired-store-accepted", Description: "a Store that started after the duty's deadline returned nil"})
+		}
+		if r.settleStart > r.adv && r.settleStart > r.xDone && r.probeFound {
+			out = append(out, schedx.Violation{Signature: "kind=expired-duty-still-served after=deadline-and-a-complete-later-store",
+				Description: fmt.Sprintf("the deadline of %v passed (logical instant %d), its Store returned (instant %d, error %v), a Store of another duty then ran from start (instant %d) to end - and PubKeyByAttestation still answers for the expired duty: data was written after the deadliner's report of the duty had been consumed, it is never trimmed",
+					attD, r.adv, r.xDone, r.xErr, r.settleStart)})
+		}
+		return out
+	}
+	return sc
+}
+
 func c06scenarios() []*schedx.Scenario {
 	thorough := schedx.Tier() == "thorough"
 	attD := core.NewAttesterDuty(10)
@@ -767,6 +863,7 @@ func c06scenarios() []*schedx.Scenario {
 		T(S("sX", attD, X)), T(RA("ra", 10, 3)), T(S("sY", attD, Y)), T(S("sL", core.NewAttesterDuty(20), late), RA("ra2", 10, 3)),
 	}), []time.Duration{11 * time.Second}, exp, 1))
 	scs = append(scs, c06stalledExpiry(attD, X, X2))
+	scs = append(scs, c06expiryBetweenCheckAndWrite())
 	for _, k := range []int{1, 9, 10, 11, 12, 25} {
 		scs = append(scs, c06massExpiry(k))
 	}
